@@ -343,30 +343,40 @@ func (c *Conn) DeliverHead(lose bool) *Delivery {
 		// is between nats.go's reader goroutine and the receiver); the
 		// scheduler goroutine never acquires anything from tasks, so this
 		// release carries only its own history
-		sched.RaceEnable()
-		func() {
-			// nats.go would panic on its own goroutine, and take the process
-			// down, if the receiver closed the channel while the connection
-			// may still deliver
-			defer func() {
-				if v := recover(); v != nil {
-					d.Dropped = "panic: " + fmt.Sprint(v)
-					c.Stats.DeliveryPanics++
-				}
-			}()
-			select {
-			case d.Sub.Ch <- d.Msg:
-				c.Stats.Delivered++
-			default:
-				d.Dropped = "slow"
-				c.Stats.SlowDrops++
-			}
-		}()
-		c.sendSeq.Add(1)
-		sched.RaceDisable()
+		c.trySend(d)
 	}
 	c.Delivered = append(c.Delivered, d)
 	return d
+}
+
+// trySend hands the message over the way nats.go does (non-blocking send,
+// drop on a full channel). It is a named function because the //go:norace
+// pragma does not extend to closures. nats.go would panic on its own
+// goroutine, and take the process down, if the receiver closed the channel
+// while the connection may still deliver; that panic is recorded.
+//
+//go:norace
+func (c *Conn) trySend(d *Delivery) {
+	defer c.recoverSend(d)
+	ch, msg := d.Sub.Ch, d.Msg
+	sched.RaceEnable()
+	defer sched.RaceDisable()
+	select {
+	case ch <- msg:
+		c.Stats.Delivered++
+	default:
+		d.Dropped = "slow"
+		c.Stats.SlowDrops++
+	}
+	c.sendSeq.Add(1)
+}
+
+//go:norace
+func (c *Conn) recoverSend(d *Delivery) {
+	if v := recover(); v != nil {
+		d.Dropped = "panic: " + fmt.Sprint(v)
+		c.Stats.DeliveryPanics++
+	}
 }
 
 // Snapshot helpers ------------------------------------------------------
